@@ -262,7 +262,7 @@ def backStep (g : G) (n : Nat) (nd : Node) (w : Nat) : Option G :=
     | some (nd', ev) => some (putNode g n nd' ev)
     | none => some { g with bad := true }     -- an answer nobody is waiting for
 
-def maxW : Nat := 8
+def maxW : Nat := 64
 
 def nodeStep (g : G) (n : Nat) : Option G :=
   match getNode g.nodes n with
